@@ -2,11 +2,11 @@
 import itertools
 
 # one representative per class the quoting / escaping code branches on
-CLASSES = ["'", '"', '\\', '\n', '\r', '\0', '{', '}', 'a', ' ', '#', '\xe9', '\U0001f600', '\udc80']
+CLASSES = ["'", '"', '\\', '\n', '\r', '\0', '{', '}', 'a', ' ', '#', '\xe9', '\U0001f600', '\udc80', '1']       # '1': a digit after an escape (\0 + 1 is \01)
 # reduced alphabet used where the placement multiplies the space (thorough tier uses CLASSES everywhere)
-CORE = ["'", '"', '\\', '\n', '{', '}', 'a', '\0']
-BCLASSES = [b"'", b'"', b'\\', b'\n', b'\r', b'\0', b'{', b'}', b'a', b' ', b'#', b'\xe9', b'\xff']
-BCORE = [b"'", b'"', b'\\', b'\n', b'{', b'a', b'\0']
+CORE = ["'", '"', '\\', '\n', '{', '}', 'a', '\0', '1']
+BCLASSES = [b"'", b'"', b'\\', b'\n', b'\r', b'\0', b'{', b'}', b'a', b' ', b'#', b'\xe9', b'\xff', b'1']
+BCORE = [b"'", b'"', b'\\', b'\n', b'{', b'a', b'\0', b'1']
 
 
 def all_strings(alphabet, maxlen):
